@@ -266,11 +266,28 @@ func (Prop) Generate(r *fw.Rand, tier string) []fw.Case {
 // ---- child process ----
 
 type child struct {
-	cmd  *exec.Cmd
-	addr string
-	dir  string
-	in   io.WriteCloser
-	dead chan struct{}
+	cmd     *exec.Cmd
+	addr    string
+	dir     string
+	in      io.WriteCloser
+	dead    chan struct{}
+	errPath string
+}
+
+// lastDeath describes how the child died most recently: exit state and the head of its stderr.
+var lastDeath string
+
+func (c *child) noteDeath() {
+	b, _ := os.ReadFile(c.errPath)
+	if len(b) > 3000 {
+		b = b[:3000]
+	}
+	state := ""
+	if c.cmd.ProcessState != nil {
+		state = c.cmd.ProcessState.String()
+	}
+	lastDeath = fmt.Sprintf("[%s] %s", state, strings.TrimSpace(string(b)))
+	os.WriteFile(filepath.Join(workDir(), fmt.Sprintf("death-%d.txt", time.Now().UnixNano())), []byte(lastDeath), 0o644)
 }
 
 var (
@@ -299,11 +316,18 @@ func startChild() (*child, error) {
 	cmd.SysProcAttr = &syscall.SysProcAttr{Pdeathsig: syscall.SIGKILL}
 	in, _ := cmd.StdinPipe()
 	outp, _ := cmd.StdoutPipe()
-	cmd.Stderr = nil
+	// the child's stderr (a Go panic or fatal error is printed there) is kept next to its
+	// directory so that a death can be diagnosed even when it is not reproduced
+	errPath := dir + ".stderr"
+	errFile, _ := os.Create(errPath)
+	cmd.Stderr = errFile
 	if err := cmd.Start(); err != nil {
 		return nil, err
 	}
-	c := &child{cmd: cmd, dir: dir, in: in, dead: make(chan struct{})}
+	if errFile != nil {
+		errFile.Close()
+	}
+	c := &child{cmd: cmd, dir: dir, in: in, dead: make(chan struct{}), errPath: errPath}
 	sc := bufio.NewScanner(outp)
 	got := make(chan string, 1)
 	go func() {
@@ -340,6 +364,7 @@ func (c *child) stop() {
 	c.cmd.Process.Kill()
 	<-c.dead
 	os.RemoveAll(c.dir)
+	os.Remove(c.errPath)
 }
 
 func getChild() (*child, error) {
@@ -348,6 +373,7 @@ func getChild() (*child, error) {
 	}
 	if ch != nil {
 		os.RemoveAll(ch.dir)
+		os.Remove(ch.errPath)
 	}
 	c, err := startChild()
 	if err != nil {
@@ -550,7 +576,7 @@ func (Prop) Oracle(c fw.Case, out []string) fw.Verdict {
 		o := out[i]
 		switch {
 		case o == "DEAD":
-			return fw.Verdict{OK: false, Why: fmt.Sprintf("the node process died after %.200s", op), Signature: "node crashed by " + classify(f)}
+			return fw.Verdict{OK: false, Why: fmt.Sprintf("the node process died after %.200s: %.1500s", op, lastDeath), Signature: "node crashed by " + classify(f)}
 		case strings.Contains(o, "MALFORMED-ACCEPTED"):
 			return fw.Verdict{OK: false, Why: fmt.Sprintf("%.200s: a request that does not decode was answered with success: %s", op, o), Signature: "malformed request answered with success: " + classify(f)}
 		case f[0] == "lv" && strings.HasPrefix(o, "ok"):
